@@ -206,19 +206,17 @@ impl OneShotMdnsResolver {
     ) -> Result<Option<Vec<u8>>, SimpleMdnsError> {
         let mut buf = [0u8; 4096];
         loop {
-            match self.receiver_socket.recv_from(&mut buf[..]) {
-                Ok((count, _)) => {
-                    if header_buffer::has_flags(&buf, simple_dns::PacketFlag::RESPONSE)?
-                        && header_buffer::id(&buf)? == packet_id
-                        && header_buffer::answers(&buf)? > 0
-                    {
-                        return Ok(Some(buf[..count].to_vec()));
-                    }
-                }
-                Err(_) => {
-                    if std::time::Instant::now() > query_deadline {
-                        return Ok(None);
-                    }
+            // the deadline holds whatever else is arriving on the multicast group
+            if std::time::Instant::now() > query_deadline {
+                return Ok(None);
+            }
+
+            if let Ok((count, _)) = self.receiver_socket.recv_from(&mut buf[..]) {
+                if header_buffer::has_flags(&buf, simple_dns::PacketFlag::RESPONSE)?
+                    && header_buffer::id(&buf)? == packet_id
+                    && header_buffer::answers(&buf)? > 0
+                {
+                    return Ok(Some(buf[..count].to_vec()));
                 }
             }
         }
